@@ -8,6 +8,7 @@ import (
 
 	"golang.org/x/tools/go/ssa"
 
+	"wtfverif/checker/internal/interval"
 	"wtfverif/checker/internal/load"
 	"wtfverif/checker/internal/maporder"
 	"wtfverif/checker/internal/pathev"
@@ -124,7 +125,8 @@ func c06Merge(c *Ctx, sx *symx.Ctx) {
 		switch x := in.(type) {
 		case *ssa.Call:
 			n := ssau.CallName(x)
-			if strings.HasPrefix(n, "sort.") || strings.HasPrefix(n, "slices.") {
+			readOnly := map[string]bool{"slices.Contains": true, "slices.ContainsFunc": true, "slices.Index": true, "slices.IndexFunc": true, "slices.Equal": true, "slices.Max": true, "slices.Min": true, "slices.Clone": true, "slices.Values": true, "slices.All": true, "sort.SearchStrings": true, "sort.Search": true, "sort.StringsAreSorted": true, "sort.IsSorted": true}
+			if (strings.HasPrefix(n, "sort.") || strings.HasPrefix(n, "slices.")) && !readOnly[n] {
 				if len(x.Common().Args) > 0 {
 					if ok, _ := prefixExt(f, ssau.Strip(x.Common().Args[0]), terms, map[ssa.Value]bool{}); ok {
 						r.Bad("O-1", fk+"#reorders-terms", c.P.Pos(x.Pos()), "the term list is reordered by "+n+": the user's first four words are no longer the first four terms, which is what the term cap protects")
@@ -149,23 +151,22 @@ func c06Merge(c *Ctx, sx *symx.Ctx) {
 		if ok2, _ := prefixExt(f, call.Common().Args[0], terms, map[ssa.Value]bool{}); !ok2 {
 			return
 		}
-		cd := ssau.ControlDeps(fn)
-		for _, d := range ssau.TransitiveControlDeps(cd, call.Block()) {
-			op, x, y, okc := ssau.CondOf(d.If().Cond)
-			if !okc {
-				continue
+		// the bound on len(terms) in force at the append, whatever the spelling of
+		// the guard (if len < A {append}; if len >= A {break}; ...): the interval
+		// of every len(<term list>) expression at the append
+		q := interval.New(f)
+		ssau.ForEachInstr(fn, false, func(i2 ssa.Instruction) {
+			lc, ok := i2.(*ssa.Call)
+			if !ok || ssau.CallName(lc) != "builtin.len" {
+				return
 			}
-			lc, isLen := x.(*ssa.Call)
-			k, isC := ssau.ConstInt(y)
-			if isLen && isC && ssau.CallName(lc) == "builtin.len" && d.Then {
-				switch op {
-				case token.LSS:
-					A = k
-				case token.LEQ:
-					A = k + 1
-				}
+			if ok2, _ := prefixExt(f, lc.Common().Args[0], terms, map[ssa.Value]bool{}); !ok2 {
+				return
 			}
-		}
+			if g := q.GuardBound(f.E(lc), call.Block()); g.HiOK && (A < 0 || g.Hi+1 < A) {
+				A = g.Hi + 1
+			}
+		})
 	})
 	su := c.P.Func("internal/database", "Database", "SearchUniversal")
 	var K int64 = -1
@@ -302,7 +303,48 @@ func c06Protected(c *Ctx, sx *symx.Ctx) {
 				origLoop = &ls[i]
 			}
 		}
+		// one-pass form: the classification loop itself appends item.term for
+		// every original item, unconditionally under the isOriginal test
+		var directLoop *ssau.RangeLoop
+		nDirect := 0
 		if origLoop == nil {
+			cd := ssau.ControlDeps(ff)
+			for i := range ls {
+				if ls[i].IsMap || ls[i].Over == nil || ssau.ParamOf(ls[i].Over) == nil && ls[i].Over != ssa.Value(ff.Params[1]) {
+					continue
+				}
+				for _, a := range outAppends {
+					if !ls[i].InLoop(a.Block()) {
+						continue
+					}
+					only := true
+					under := false
+					for _, d := range ssau.TransitiveControlDeps(cd, a.Block()) {
+						if d.Branch == ls[i].Header {
+							continue
+						}
+						if n, _ := lastSelector(d.If().Cond); n == "isOriginal" && d.Then {
+							under = true
+							continue
+						}
+						only = false
+					}
+					if only && under {
+						directLoop = &ls[i]
+						nDirect++
+					}
+				}
+			}
+		}
+		if origLoop == nil && directLoop != nil {
+			r.Check(nDirect == 1, "O-3", fk2+"#every-original-kept", c.P.Pos(directLoop.Body.Instrs[0].Pos()), "each original term is appended exactly once, under nothing but the isOriginal test", fmt.Sprintf("original terms are appended at %d places of the classification loop", nDirect))
+			for i, a := range outAppends {
+				if directLoop.InLoop(a.Block()) {
+					continue
+				}
+				r.Check(directLoop.Done.Dominates(a.Block()) || directLoop.Done == a.Block(), "O-3", fmt.Sprintf("%s#enhanced-append-%d-after-originals", fk2, i+1), c.P.Pos(a.Pos()), "enhanced terms are appended only after all originals", "an enhanced term can be appended before the original terms: "+f.Plain(a))
+			}
+		} else if origLoop == nil {
 			r.Bad("O-3", fk2+"#originals-loop", c.P.Pos(ff.Pos()), "no loop over the list of original terms found")
 		} else {
 			eng := pathev.New(func(in ssa.Instruction) []string {
@@ -360,66 +402,9 @@ func c06Keywords(c *Ctx, sx *symx.Ctx) {
 	rdf := c.P.Func("internal/nlp", "", "removeDuplicates")
 	fk2 := "nlp.removeDuplicates"
 	if r.Anchor("O-4", fk2, rdf != nil) {
-		var loop *ssau.RangeLoop
-		ls := ssau.RangeLoops(rdf)
-		for i := range ls {
-			if ls[i].Over == ssa.Value(rdf.Params[0]) && !ls[i].IsMap {
-				loop = &ls[i]
-			}
-		}
-		good := loop != nil
-		why := "no range over the input in order"
-		if good {
-			// the append: element of this iteration, guarded by !seen[item]; seen[item] = true
-			nApp := 0
-			cd := ssau.ControlDeps(rdf)
-			ssau.ForEachInstr(rdf, false, func(in ssa.Instruction) {
-				switch x := in.(type) {
-				case *ssa.Call:
-					n := ssau.CallName(x)
-					if strings.HasPrefix(n, "sort.") || strings.HasPrefix(n, "slices.Sort") {
-						good, why = false, "the result is sorted: first-occurrence order is lost"
-					}
-					if n != "builtin.append" {
-						return
-					}
-					nApp++
-					el := appendedSingle(x)
-					u, ok := el.(*ssa.UnOp)
-					if !ok {
-						good, why = false, "appends something other than the current element"
-						return
-					}
-					ia, ok := u.X.(*ssa.IndexAddr)
-					if !ok || ia.X != loop.Over || ia.Index != loop.Index {
-						good, why = false, "appends something other than the current element"
-						return
-					}
-					guarded := false
-					for _, d := range ssau.TransitiveControlDeps(cd, x.Block()) {
-						if lk, ok := d.If().Cond.(*ssa.Lookup); ok && !d.Then {
-							if ku, ok := lk.Index.(*ssa.UnOp); ok {
-								if kia, ok := ku.X.(*ssa.IndexAddr); ok && kia.Index == loop.Index {
-									guarded = true
-								}
-							}
-						}
-					}
-					if !guarded {
-						good, why = false, "the append is not guarded by !seen[item]"
-					}
-				}
-			})
-			if nApp != 1 {
-				good, why = false, fmt.Sprintf("%d appends (want 1)", nApp)
-			}
-			// result is the builder
-			for _, ret := range ssau.ReturnsOf(rdf) {
-				if _, ok := ret.Results[0].(*ssa.Phi); !ok {
-					good, why = false, "the result is not the slice built by the loop"
-				}
-			}
-		}
+		// shared with C13: range in order, append on first sight (any spelling of
+		// the "seen" set: bool map, struct{} map with comma-ok, negated test)
+		good, why := firstOccurrenceIdiom(rdf)
 		r.Check(good, "O-4", fk2+"#first-occurrence-idiom", c.P.Pos(rdf.Pos()), "range in order; append on first sight; no sort", "removeDuplicates is not the first-occurrence idiom: "+why)
 	}
 }
